@@ -1,0 +1,32 @@
+//! Verification hooks (feature `verif-hooks`, off by default, add-only).
+//!
+//! Re-exports of the otherwise private shell functions so an external harness
+//! can drive the real event-loop arms one event at a time. No production code
+//! path uses this module.
+#![allow(dead_code, unused_imports)]
+
+pub use super::connections::{
+    PendingConnectionChanges, apply_connection_changes, create_connections_from_ips,
+    reconnect_uplink,
+};
+pub use super::housekeeping::{GLOBAL_TIMEOUT_MS, handle_housekeeping};
+pub use super::packet_handler::{
+    InstantForwarder, drain_packet_queue, flush_all_batches, forward_via_connection,
+    handle_srt_packet, handle_uplink_packet, process_connection_events,
+};
+pub use super::reload::{IpReload, ReloadRefusal, analyze_ip_reload, analyze_ip_reload_text};
+pub use super::sequence::{SEQ_TRACKING_SIZE, SEQUENCE_TRACKING_MAX_AGE_MS, SequenceTracker};
+pub use super::uplink::{
+    ConnIo, ConnIoMap, ConnectionId, ReaderHandle, UplinkPacket, create_uplink_channel,
+};
+pub use super::uplink_recv::process_uplink_packet;
+
+/// Public wrapper around the crate-private NAK attribution.
+pub fn attribute_nak(
+    connections: &mut [srtla_core::connection::SrtlaConnection],
+    seq_tracker: &SequenceTracker,
+    nak: u32,
+    current_time_ms: u64,
+) -> Option<usize> {
+    super::packet_handler::attribute_nak(connections, seq_tracker, nak, current_time_ms)
+}
